@@ -6,8 +6,16 @@ package quic
 // every position class the sni.go parser distinguishes; they are written in 1 or 2 Write
 // calls and popped with every sequence of maxLen values from {nothing fits, tiny, one
 // cell, large}. Explicit-state BFS to closure per (ClientHello, write split, mode).
+//
+// The Initial CRYPTO stream does not end with the first ClientHello: after a
+// HelloRetryRequest the TLS stack writes a second ClientHello to the same stream. A
+// subset of the cases therefore writes 1 or 2 further messages behind the ClientHello
+// (any interleaving with the pops), and every frame PopCryptoFrame handed out is kept the
+// way the sent packet history keeps it (same backing array, no copy) and re-read after
+// every later operation: it is what a retransmission / PTO probe puts on the wire then.
 
 import (
+	"bytes"
 	"encoding/json"
 	"fmt"
 	"strings"
@@ -189,22 +197,50 @@ type c09ScrStream interface {
 }
 
 type c09ScrInst struct {
-	mode    string // "scramble", "disabled", "plain"
-	ini     *initialCryptoStream
-	plain   *cryptoStream
-	ch      []byte
-	chunks  [][]byte
-	written int
-	wlen    int
-	cnt     []uint8
-	lin     int // bytes handed out by the linear (non-scrambling) path, for PopAllCryptoData
-	sizes   [4]protocol.ByteCount
-	dead    bool
-	outcome string
+	mode     string // "scramble", "disabled", "plain"
+	ini      *initialCryptoStream
+	plain    *cryptoStream
+	ch       []byte
+	chunks   [][]byte
+	helloLen int
+	nCH      int // the first nCH chunks are the ClientHello, the others are later messages
+	held     []c09HeldFrame
+	written  int
+	wlen     int
+	cnt      []uint8
+	lin      int // bytes handed out by the linear (non-scrambling) path, for PopAllCryptoData
+	sizes    [4]protocol.ByteCount
+	dead     bool
+	outcome  string
 }
 
-func c09NewScrInst(mode string, ch []byte, split int) *c09ScrInst {
-	in := &c09ScrInst{mode: mode, ch: ch, cnt: make([]uint8, len(ch))}
+// c09HeldFrame is a popped CRYPTO frame as the sent packet history / the retransmission
+// queue keep it: the Data slice itself, not a copy.
+type c09HeldFrame struct {
+	off  int
+	data []byte
+}
+
+// c09LaterMsg is the k-th message written behind the ClientHello (the second ClientHello
+// after a HelloRetryRequest, ...). Its bytes come from a value range of its own, so they
+// differ from every byte of the hand-built ClientHello (< 0x80) and of the other messages.
+func c09LaterMsg(k, n int) []byte {
+	b := make([]byte, n)
+	for i := range b {
+		b[i] = byte(0x80 + 0x20*(k%4) + (i*7+i/32)%0x20)
+	}
+	return b
+}
+
+func c09NewScrInst(mode string, hello []byte, split int, extra []int) *c09ScrInst {
+	ch := append([]byte{}, hello...) // the whole stream: ClientHello + later messages
+	var later [][]byte
+	for k, n := range extra {
+		m := c09LaterMsg(k, n)
+		later = append(later, m)
+		ch = append(ch, m...)
+	}
+	in := &c09ScrInst{mode: mode, ch: ch, helloLen: len(hello), cnt: make([]uint8, len(ch))}
 	switch mode {
 	case "scramble":
 		in.ini = newInitialCryptoStream(true)
@@ -215,13 +251,15 @@ func c09NewScrInst(mode string, ch []byte, split int) *c09ScrInst {
 	default:
 		in.plain = newCryptoStream()
 	}
-	if split > 0 && split < len(ch) {
-		in.chunks = [][]byte{ch[:split], ch[split:]}
+	if split > 0 && split < len(hello) {
+		in.chunks = [][]byte{hello[:split], hello[split:]}
 	} else {
-		in.chunks = [][]byte{ch}
+		in.chunks = [][]byte{hello}
 	}
+	in.nCH = len(in.chunks)
+	in.chunks = append(in.chunks, later...)
 	tiny, cell := protocol.ByteCount(7), protocol.ByteCount(40)
-	if len(ch) > 400 {
+	if len(hello) > 400 {
 		tiny, cell = 70, 300
 	}
 	in.sizes = [4]protocol.ByteCount{2, tiny, cell, 1400}
@@ -269,18 +307,44 @@ func (in *c09ScrInst) mark(off int, data []byte, what string) *explore.Fail {
 	return nil
 }
 
+// checkHeld re-reads every frame that was popped so far: until it is acknowledged the
+// packer may put it on the wire again at any time (loss, PTO probe), and then it has to
+// carry the stream's bytes at its offset like any other frame.
+func (in *c09ScrInst) checkHeld(after explore.Op) *explore.Fail {
+	for _, h := range in.held {
+		if bytes.Equal(h.data, in.ch[h.off:h.off+len(h.data)]) {
+			continue
+		}
+		for i, x := range h.data {
+			if x != in.ch[h.off+i] {
+				return explore.Failf("cryptostream-"+in.mode+":retained-frame-changed", "the CRYPTO frame [%d,%d) that PopCryptoFrame handed out earlier (kept for retransmission, not yet acknowledged) carries 0x%02x at stream offset %d after %s, the stream has 0x%02x there: a retransmission would put the wrong bytes on the wire", h.off, h.off+len(h.data), x, h.off+i, after.N, in.ch[h.off+i])
+			}
+		}
+	}
+	return nil
+}
+
 func (in *c09ScrInst) Apply(op explore.Op) *explore.Fail {
+	if f := in.apply(op); f != nil {
+		return f
+	}
+	return in.checkHeld(op)
+}
+
+func (in *c09ScrInst) apply(op explore.Op) *explore.Fail {
 	hasData := func() bool {
 		if in.ini != nil {
 			return in.ini.HasData()
 		}
 		return in.plain.HasData()
 	}
-	complete := in.written == len(in.chunks)
+	// the ClientHello is complete (later messages may still follow: the stream cannot know)
+	complete := in.written >= in.nCH
 	switch op.N {
 	case "write":
 		var err error
 		c := in.chunks[in.written]
+		drained := !hasData() && in.unsent() < 0
 		if in.ini != nil {
 			_, err = in.ini.Write(c)
 		} else {
@@ -289,6 +353,12 @@ func (in *c09ScrInst) Apply(op explore.Op) *explore.Fail {
 		in.written++
 		in.wlen += len(c)
 		in.outcome = "write"
+		if in.written > in.nCH {
+			in.outcome = "write (later message)"
+			if drained {
+				in.outcome += ", stream was drained"
+			}
+		}
 		if err != nil {
 			// the handshake fails here (connection.go closes on a Write error): nothing more is sent
 			in.dead = true
@@ -299,7 +369,7 @@ func (in *c09ScrInst) Apply(op explore.Op) *explore.Fail {
 		if !hasData() {
 			// the packer asks HasData before popping (maybeGetCryptoPacket)
 			if i := in.unsent(); complete && i >= 0 {
-				return explore.Failf("cryptostream-"+in.mode+":hasdata-false-with-unsent-bytes", "the whole ClientHello (%d bytes) is written, stream offset %d was never popped, HasData() is false", in.wlen, i)
+				return explore.Failf("cryptostream-"+in.mode+":hasdata-false-with-unsent-bytes", "the whole ClientHello is written (%d stream bytes so far), stream offset %d was never popped, HasData() is false", in.wlen, i)
 			}
 			in.outcome = "no data"
 			if !complete {
@@ -323,7 +393,7 @@ func (in *c09ScrInst) Apply(op explore.Op) *explore.Fail {
 		}
 		if isNil {
 			if i := in.unsent(); complete && i >= 0 && op.A == 3 {
-				return explore.Failf("cryptostream-"+in.mode+":stuck-with-unsent-bytes", "the whole ClientHello (%d bytes) is written, stream offset %d was never popped, PopCryptoFrame(%d) returns nil", in.wlen, i, maxLen)
+				return explore.Failf("cryptostream-"+in.mode+":stuck-with-unsent-bytes", "the whole ClientHello is written (%d stream bytes so far), stream offset %d was never popped, PopCryptoFrame(%d) returns nil", in.wlen, i, maxLen)
 			}
 			in.outcome = fmt.Sprintf("pop(%d) nil", op.A)
 			return nil
@@ -336,7 +406,11 @@ func (in *c09ScrInst) Apply(op explore.Op) *explore.Fail {
 			return f
 		}
 		in.lin += len(data)
+		in.held = append(in.held, c09HeldFrame{int(off), data})
 		in.outcome = fmt.Sprintf("pop(%d) data", op.A)
+		if int(off) >= in.helloLen {
+			in.outcome += " (later message)"
+		}
 		if dupBefore {
 			in.outcome += " (bytes sent before)"
 		}
@@ -382,7 +456,8 @@ func (in *c09ScrInst) Key() string {
 type c09ScrCase struct {
 	Shape int
 	Mode  string
-	Split int // 0 = one Write, else the first Write has Split bytes (negative: from the end)
+	Split int   // 0 = one Write, else the first Write has Split bytes (negative: from the end)
+	Extra []int `json:",omitempty"` // lengths of the messages written behind the ClientHello (second ClientHello after a HelloRetryRequest, ...)
 }
 
 func c09ScrCases(thorough bool) ([]c09ScrCase, []c09CHShape) {
@@ -395,22 +470,36 @@ func c09ScrCases(thorough bool) ([]c09ScrCase, []c09CHShape) {
 			splits = []int{0, 1, 3, 4, 5, 44, n / 2, n - 17, n - 1}
 		}
 		for _, sp := range c09UniqSorted(splits, 0, n-1) {
-			cs = append(cs, c09ScrCase{si, "scramble", sp})
+			cs = append(cs, c09ScrCase{si, "scramble", sp, nil})
 		}
 		if si%7 == 0 || n > 1000 {
-			cs = append(cs, c09ScrCase{si, "disabled", 0}, c09ScrCase{si, "disabled", n / 2}, c09ScrCase{si, "plain", n / 2})
+			cs = append(cs, c09ScrCase{si, "disabled", 0, nil}, c09ScrCase{si, "disabled", n / 2, nil}, c09ScrCase{si, "plain", n / 2, nil})
+		}
+	}
+	// later messages on the same stream (appended, so that the indices of the cases above stay)
+	for si, sh := range shapes {
+		n := len(c09BuildCH(sh.Exts, sh.SID, 3))
+		if !(si%7 == 0 || n > 1000 || (thorough && si%2 == 0)) {
+			continue
+		}
+		cs = append(cs,
+			c09ScrCase{si, "disabled", 0, []int{1}}, c09ScrCase{si, "disabled", 0, []int{n}}, c09ScrCase{si, "disabled", n / 2, []int{40, 1}},
+			c09ScrCase{si, "plain", 0, []int{n}}, c09ScrCase{si, "plain", n / 2, []int{1}},
+			c09ScrCase{si, "scramble", 0, []int{min(n, 60), 1}}, c09ScrCase{si, "scramble", 3, []int{1}})
+		if thorough {
+			cs = append(cs, c09ScrCase{si, "disabled", 3, []int{n + 9, n}}, c09ScrCase{si, "plain", 0, []int{1, 1}}, c09ScrCase{si, "scramble", n / 2, []int{n, 40}})
 		}
 	}
 	return cs, shapes
 }
 
 func c09ScramblePart() explore.Part {
-	const rule = "explicit-state BFS to closure over the send side of the real initialCryptoStream (scrambler on; baseline: scrambling disabled incl. PopAllCryptoData, and the plain cryptoStream): hand-built ClientHellos with SNI (host_name lengths 1,2,9,100; other name types; two names), ECH (body 0,5,20,200) and filler extensions in every relative position (first/middle/last/adjacent/alone/absent, duplicate extensions, no extensions field), written in 1 or 2 Write calls (split at 3, middle, last byte), ops = Write next chunk | HasData-gated PopCryptoFrame(maxLen) with maxLen in {2 (nothing fits), tiny, cell, 1400} | PopAllCryptoData; every popped frame must carry the written bytes at its offset, and once everything is written the stream must keep yielding frames until every byte was popped"
+	const rule = "explicit-state BFS to closure over the send side of the real initialCryptoStream (scrambler on; baseline: scrambling disabled incl. PopAllCryptoData, and the plain cryptoStream): hand-built ClientHellos with SNI (host_name lengths 1,2,9,100; other name types; two names), ECH (body 0,5,20,200) and filler extensions in every relative position (first/middle/last/adjacent/alone/absent, duplicate extensions, no extensions field), written in 1 or 2 Write calls (split at 3, middle, last byte), for a subset of the ClientHellos followed by 1 or 2 later messages on the same stream (the second ClientHello after a HelloRetryRequest: 1 byte, 40/60 bytes, as long as the first), ops = Write next chunk | HasData-gated PopCryptoFrame(maxLen) with maxLen in {2 (nothing fits), tiny, cell, 1400} | PopAllCryptoData; every popped frame must carry the written bytes at its offset, once the ClientHello is written the stream must keep yielding frames until every written byte was popped, and every frame popped along the path is kept uncopied (as the sent packet history keeps it for retransmission) and must still carry the stream's bytes at its offset after every later operation"
 	spec := func(c c09ScrCase, shapes []c09CHShape) explore.BFSSpec {
 		sh := shapes[c.Shape]
 		ch := c09BuildCH(sh.Exts, sh.SID, 3)
 		return explore.BFSSpec{
-			New:              func() explore.Instance { return c09NewScrInst(c.Mode, ch, c.Split) },
+			New:              func() explore.Instance { return c09NewScrInst(c.Mode, ch, c.Split, c.Extra) },
 			PanicIsViolation: true,
 			MaxStates:        400000,
 		}
@@ -440,14 +529,14 @@ func c09ScramblePart() explore.Part {
 				cr := explore.CaseResult{Execs: r.Transitions, Trans: r.Transitions}
 				if len(r.Violations) > 0 {
 					v := r.Violations[0]
-					cr.Fail = &explore.Fail{Key: v.Key + ":" + shapes[c.Shape].Class(), What: fmt.Sprintf("%s [ClientHello %q (%d bytes), mode %s, first Write %d bytes; ops %v]", v.What, shapes[c.Shape].Name, len(c09BuildCH(shapes[c.Shape].Exts, shapes[c.Shape].SID, 3)), c.Mode, c.Split, v.Human)}
+					cr.Fail = &explore.Fail{Key: v.Key + ":" + shapes[c.Shape].Class(), What: fmt.Sprintf("%s [ClientHello %q (%d bytes), mode %s, first Write %d bytes, later messages %v; ops %v]", v.What, shapes[c.Shape].Name, len(c09BuildCH(shapes[c.Shape].Exts, shapes[c.Shape].SID, 3)), c.Mode, c.Split, c.Extra, v.Human)}
 					cr.Replay = map[string]any{"case": i, "path": v.Replay}
 					cr.Human = v.Human
 				}
 				return cr
 			})
 			acc.samples = []any{"ClientHello 'sni9 ech20 adjacent f30': write(3 bytes) pop(large)=nil write(rest) pop(tiny) ... until drained"}
-			rep = acc.finish(rep, rule, fmt.Sprintf("reachable state set closed for every one of the %d (ClientHello, mode, write split) cases", len(cases)))
+			rep = acc.finish(rep, rule, fmt.Sprintf("reachable state set closed for every one of the %d (ClientHello, mode, write split, later messages) cases", len(cases)))
 			rep.States = states
 			if closed < ncases && rep.Exhaustive {
 				rep.Exhaustive = false
